@@ -635,6 +635,17 @@ func computeLoops(fn *ssa.Function) map[*ssa.BasicBlock]*loopInfo {
 	return loops
 }
 
+// freshGhost: an arbitrary value for a ghost variable of the given sort (int, bool or a byte view).
+func (ex *Exec) freshGhost(st *State, name string, sort string) Val {
+	switch sort {
+	case SBool:
+		return VBool{ex.decls.fresh("gv_"+name, SBool)}
+	case SBytes:
+		return ex.freshVal(st, "gv_"+name, types.NewSlice(types.Typ[types.Uint8]), false)
+	}
+	return VInt{ex.decls.fresh("gv_"+name, SInt)}
+}
+
 func (ex *Exec) newFrame(fn *ssa.Function, caller *frame) *frame {
 	key := ex.prog.keyOf(fn)
 	f := &frame{fn: fn, ex: ex, key: key, con: ex.prog.contracts[key], cellOf: map[*ssa.Alloc]*Cell{}, caller: caller}
@@ -692,11 +703,7 @@ func (ex *Exec) runTop(fn *ssa.Function) {
 	st.frontier = ex.heapTop()
 	for name, sort := range ex.prog.spec.GhostVars {
 		if _, ok := st.ghost[name]; !ok {
-			if sort == SBool {
-				st.ghost[name] = VBool{ex.decls.fresh("gv_"+name, SBool)}
-			} else {
-				st.ghost[name] = VInt{ex.decls.fresh("gv_"+name, SInt)}
-			}
+			st.ghost[name] = ex.freshGhost(st, name, sort)
 		}
 	}
 	if ex.rel != nil {
